@@ -1,3 +1,14 @@
 -- GENERATED: axiom audit of the property theorems of C15
 import SquidModel.Properties.C15
+#print axioms SquidModel.C15.parts_are_requested_satisfiable
+#print axioms SquidModel.C15.parts_cover_requested
+#print axioms SquidModel.C15.parts_inside_object
+#print axioms SquidModel.C15.honoured_wire_exact
+#print axioms SquidModel.C15.content_length_exact
+#print axioms SquidModel.C15.ignored_wire_char
+#print axioms SquidModel.C15.ignored_wire_full_partial
+#print axioms SquidModel.C15.ignored_wire_counterexample
+#print axioms SquidModel.C15.decision_never_packs_non200_or_limited_miss
 #print axioms SquidModel.C15.merging_disabled
+#print axioms SquidModel.C15.serveStored_sound
+#print axioms SquidModel.C15.respond_status
